@@ -74,7 +74,7 @@ def prog_space(tier):
     return progs
 
 
-VARIANTS = ["sub", "glob", "ret", "sub+glob+ret", "clear", "sub+glob+ret+clear"]
+VARIANTS = ["sub", "glob", "ret", "sub+glob+ret", "clear", "sub+glob+ret+clear", "priv", "sub+glob+priv"]
 
 
 def build_prog(prog, variant):
@@ -95,6 +95,9 @@ def build_prog(prog, variant):
     ret = f" -> {MT}" if "ret" in v else ""
     text = "builtin.module {\n" + glob + "func.func public @f(" + ", ".join(args) + ")" + ret + " {\n  %zero = arith.constant 0 : index\n  %one = arith.constant 1 : index\n"
     text += "\n".join(pre + lines) + ("\n  func.return %c : " + MT if "ret" in v else "\n  func.return") + "\n}\n}\n"
+    if "priv" in v:
+        # a private function with a body: its arguments carry no memory space at all (only public functions are tagged L3)
+        text = text.replace("func.func public @f", "func.func private @f")
     if "sub" in v:
         st = "memref<8xi32, strided<[1], offset: 4>>"
         text = text.replace(f"ins(%a : {MT})", f"ins(%a : {st})").replace(f"outs(%a : {MT})", f"outs(%a : {st})")
